@@ -261,7 +261,26 @@ func wfFacts(t Term, depth int) []string {
 	}
 	switch t.Sort.Kind {
 	case KSlice:
-		return []string{sx(">=", slLen(t).S, "0"), sx("<=", slLen(t).S, "9223372036854775807")} // a Go length is an int
+		out := []string{sx(">=", slLen(t).S, "0"), sx("<=", slLen(t).S, "9223372036854775807")} // a Go length is an int
+		// every element is a valid value of its type as well
+		if t.Sort.Elem != nil && depth > 1 {
+			el := Term{sx("select", slArr(t).S, "wi"), t.Sort.Elem}
+			if fs := wfFacts(el, min(depth-1, 2)); len(fs) > 0 {
+				out = append(out, "(forall ((wi Int)) (! "+sx("and", append(fs, "true")...)+" :pattern ("+el.S+")))")
+			}
+		}
+		return out
+	case KSum:
+		var out []string
+		for _, c := range t.Sort.Ctors {
+			if c.Payload == nil || c.Acc == "" {
+				continue
+			}
+			for _, f := range wfFacts(Term{sx(c.Acc, t.S), c.Payload}, depth-1) {
+				out = append(out, sx("=>", sx(c.Tester, t.S), f))
+			}
+		}
+		return out
 	case KStruct:
 		var out []string
 		for _, f := range t.Sort.Fields {
